@@ -26,7 +26,8 @@ def _record_chunk(args):
     return out
 
 
-def record_random(ntraces, nsteps, seed, procs=16):
+def record_random(ntraces, nsteps, seed, procs=None):
+    procs = procs or int(os.environ.get('VERIF_PROCS', '16'))
     per = (ntraces + procs - 1) // procs
     jobs = [(seed * 1000 + p, per, nsteps, p * per + 1) for p in range(procs)]
     with ProcessPoolExecutor(max_workers=procs) as ex:
@@ -58,7 +59,7 @@ def validate(chunks, timeout=1800):
             r = tlc.run_tlc(wd, name, cfg, tag='t%d' % k, mc_text=mc, workers=1, env={'TRACE_FILE': path},
                             timeout=timeout)
             return ch, r
-        with ThreadPoolExecutor(max_workers=16) as ex:
+        with ThreadPoolExecutor(max_workers=int(os.environ.get('VERIF_PROCS', '16'))) as ex:
             results = list(ex.map(one, range(len(chunks))))
     for ch, r in results:
         stats['generated'] += r['generated']
